@@ -68,7 +68,7 @@ def ind2save_cases(repo, env, facts, ratio: Poly, etype: str):
         e = dict(env)
         e["ratio"] = ratio
         ev = Evaluator(env=e, facts=facts.copy(), resolve=lambda x: repo.resolve_expr(fi, x), assume=assume)
-        ev.facts.int_syms |= {f"{wg}.iw", f"{wg}.nwin"}
+        ev.facts.int_syms |= {f"{wg}.iw", f"{wg}.nwin", f"{wg}.ns", f"{wg}.nswin", f"{wg}.overlap"}
         sx = SymExec(ev, on_undecided="error")
         try:
             for s in fi.node.body:
